@@ -298,7 +298,7 @@ for _pid in ("C02", "C03", "C11", "C16", "C20"):
 import importlib.util as _ilu
 _spec = _ilu.spec_from_file_location("mkties", os.path.join(os.path.dirname(os.path.abspath(__file__)), "..", "tools", "mkties.py"))
 _mk = _ilu.module_from_spec(_spec); _spec.loader.exec_module(_mk)
-TIED = ["C02", "C03", "C09", "C16", "C20"]
+TIED = sorted(_mk.PROPS)
 for _pid in TIED:
     PROPS[_pid]["generated"] = list(PROPS[_pid].get("generated", [])) + _mk.units_of(_pid)
     PROPS[_pid]["rule"] += (" TIE BY REGENERATION: the bodies of the Go functions this property is about are translated on every run (gotrans: %s) into "
